@@ -29,6 +29,7 @@ import (
 	"context"
 	"encoding/json"
 	"fmt"
+	"runtime"
 	"sort"
 	"sync"
 	"testing"
@@ -503,6 +504,7 @@ func (h *verifC08Hist) reload(concurrent bool) int {
 						_ = h.repo.LookupBlob(qs[i%len(qs)])
 						_, _ = h.repo.LookupBlobSize(qs[i%len(qs)])
 					}
+					runtime.Gosched() // do not starve the loader on an oversubscribed machine
 				}
 			}()
 		}
